@@ -218,6 +218,66 @@ Proof. apply Forall2_len. Qed.
 (** * Expressions                                                             *)
 (* ------------------------------------------------------------------------- *)
 
+
+(* ---- dynamic reads ---- *)
+Arguments elab_dyn_read : simpl never.
+
+Lemma emit_extracts_struct a mul w ks : forall G os G',
+  emit_extracts a mul w ks G = (os, G') -> ext G G' /\ Forall (fun k => k < length G') os.
+Proof.
+  induction ks as [|k ks IH]; intros G os G' H; simpl in H.
+  - inversion H; subst. split; [apply ext_refl|constructor].
+  - unfold emit in H. destruct (emit_extracts a mul w ks (G ++ [NExtract a (k * mul) w])) as [os' G2] eqn:H1.
+    inversion H; subst. apply IH in H1 as [E1 F1].
+    pose proof (ext_length _ _ E1) as L1. rewrite app_length in L1. simpl in L1.
+    split; [eapply ext_trans; [apply ext_emit|exact E1]|]. constructor; auto. lia.
+Qed.
+
+Lemma emit_extracts_sem a mul w ks : forall G os G',
+  a < length G -> emit_extracts a mul w ks G = (os, G') ->
+  map (V G') os = map (fun k => extract_sem (V G a) (k * mul) w) ks.
+Proof.
+  induction ks as [|k ks IH]; intros G os G' Ha H; simpl in H.
+  - inversion H; subst. reflexivity.
+  - unfold emit in H. destruct (emit_extracts a mul w ks (G ++ [NExtract a (k * mul) w])) as [os' G2] eqn:H1.
+    inversion H; subst. clear H.
+    destruct (emit_extracts_struct _ _ _ _ _ _ _ H1) as [E1 _].
+    simpl. f_equal.
+    + rewrite (V_ext (G ++ [NExtract a (k * mul) w]) G' (length G) E1) by (rewrite app_length; simpl; lia).
+      rewrite V_emit. reflexivity.
+    + assert (Ha' : a < length (G ++ [NExtract a (k * mul) w])) by (rewrite app_length; simpl; lia).
+      rewrite (IH _ _ _ Ha' H1).
+      rewrite (V_ext G (G ++ [NExtract a (k * mul) w]) a (ext_emit _ _) Ha). reflexivity.
+Qed.
+
+Lemma elab_dyn_read_struct na ni prm G n G' :
+  elab_dyn_read na ni prm G = (n, G') -> ext G G' /\ n < length G'.
+Proof.
+  unfold elab_dyn_read. destruct prm as [[maxi mul] w].
+  destruct (emit_extracts na mul w (seq 0 (S maxi)) G) as [opts G1] eqn:H1. unfold emit. intro H. inversion H; subst.
+  destruct (emit_extracts_struct _ _ _ _ _ _ _ H1) as [E1 _].
+  split; [eapply ext_trans; [exact E1|apply ext_emit]|rewrite app_length; simpl; lia].
+Qed.
+
+Lemma elab_dyn_read_sem na ni prm G n G' :
+  na < length G -> ni < length G -> elab_dyn_read na ni prm G = (n, G') ->
+  V G' n = dyn_read (V G na) (V G ni) prm.
+Proof.
+  unfold elab_dyn_read, dyn_read. destruct prm as [[maxi mul] w]. intros Ha Hi.
+  destruct (emit_extracts na mul w (seq 0 (S maxi)) G) as [opts G1] eqn:H1. unfold emit. intro H. inversion H; subst.
+  destruct (emit_extracts_struct _ _ _ _ _ _ _ H1) as [E1 _].
+  rewrite V_emit. simpl. fold (V G1 ni).
+  replace (map (getv (eval_all inp G1)) opts) with (map (V G1) opts) by reflexivity.
+  rewrite (emit_extracts_sem _ _ _ _ _ _ _ Ha H1). rewrite (V_ext G G1 ni E1 Hi). reflexivity.
+Qed.
+
+Lemma elab_dyn_read_fresh na ni prm G n G' : elab_dyn_read na ni prm G = (n, G') -> length G <= n.
+Proof.
+  unfold elab_dyn_read. destruct prm as [[maxi mul] w].
+  destruct (emit_extracts na mul w (seq 0 (S maxi)) G) as [opts G1] eqn:H1. unfold emit. intro H. inversion H; subst.
+  destruct (emit_extracts_struct _ _ _ _ _ _ _ H1) as [E1 _]. apply ext_length; exact E1.
+Qed.
+
 Lemma elab_expr_struct S e : forall G n G',
   sigs_bounded (length G) S -> elab_expr S e G = (n, G') -> ext G G' /\ n < length G'.
 Proof.
@@ -251,6 +311,21 @@ Proof.
     inversion H; subst. split; [eapply ext_trans; [exact E1|eapply ext_trans; [exact E2|apply ext_emit]] | rewrite app_length; simpl; lia].
   - destruct (elab_expr S e G) as [na G1] eqn:H1. apply IHe in H1 as [E1 B1]; auto.
     inversion H; subst. split; [eapply ext_trans; [exact E1|apply ext_emit] | rewrite app_length; simpl; lia].
+  - destruct (elab_expr S e1 G) as [na G1] eqn:H1. apply IHe1 in H1 as [E1 B1]; auto.
+    destruct (elab_expr S e2 G1) as [nb G2] eqn:H2.
+    apply IHe2 in H2 as [E2 B2]; [|eapply sigs_bounded_mono; [apply ext_length; exact E1|exact Hb]].
+    apply elab_dyn_read_struct in H as [E3 B3].
+    split; [eapply ext_trans; [exact E1|eapply ext_trans; [exact E2|exact E3]] | exact B3].
+  - destruct (elab_expr S e1 G) as [na G1] eqn:H1. apply IHe1 in H1 as [E1 B1]; auto.
+    destruct (elab_expr S e2 G1) as [nb G2] eqn:H2.
+    apply IHe2 in H2 as [E2 B2]; [|eapply sigs_bounded_mono; [apply ext_length; exact E1|exact Hb]].
+    apply elab_dyn_read_struct in H as [E3 B3].
+    split; [eapply ext_trans; [exact E1|eapply ext_trans; [exact E2|exact E3]] | exact B3].
+  - destruct (elab_expr S e1 G) as [na G1] eqn:H1. apply IHe1 in H1 as [E1 B1]; auto.
+    destruct (elab_expr S e2 G1) as [nb G2] eqn:H2.
+    apply IHe2 in H2 as [E2 B2]; [|eapply sigs_bounded_mono; [apply ext_length; exact E1|exact Hb]].
+    apply elab_dyn_read_struct in H as [E3 B3].
+    split; [eapply ext_trans; [exact E1|eapply ext_trans; [exact E2|exact E3]] | exact B3].
 Qed.
 
 Lemma elab_expr_sem S E e : forall G n G',
@@ -298,6 +373,30 @@ Proof.
   - destruct (elab_expr S e G) as [na G1] eqn:H1.
     pose proof (elab_expr_struct _ _ _ _ _ Hb H1) as [E1 B1].
     inversion H; subst. rewrite V_emit. simpl. fold (V G1 na). rewrite (IHe _ _ _ Hb HR H1). reflexivity.
+  - destruct (elab_expr S e1 G) as [na G1] eqn:H1. destruct (elab_expr S e2 G1) as [nb G2] eqn:H2.
+    pose proof (elab_expr_struct _ _ _ _ _ Hb H1) as [E1 B1].
+    assert (Hb1 : sigs_bounded (length G1) S) by (eapply sigs_bounded_mono; [apply ext_length; exact E1|exact Hb]).
+    pose proof (elab_expr_struct _ _ _ _ _ Hb1 H2) as [E2 B2].
+    pose proof (ext_length _ _ E2) as L2.
+    assert (B1' : na < length G2) by lia.
+    rewrite (elab_dyn_read_sem _ _ _ _ _ _ B1' B2 H).
+    rewrite (V_ext G1 G2 na E2 B1). rewrite (IHe1 _ _ _ Hb HR H1). rewrite (IHe2 _ _ _ Hb1 (rel_ext _ _ _ _ E1 Hb HR) H2). reflexivity.
+  - destruct (elab_expr S e1 G) as [na G1] eqn:H1. destruct (elab_expr S e2 G1) as [nb G2] eqn:H2.
+    pose proof (elab_expr_struct _ _ _ _ _ Hb H1) as [E1 B1].
+    assert (Hb1 : sigs_bounded (length G1) S) by (eapply sigs_bounded_mono; [apply ext_length; exact E1|exact Hb]).
+    pose proof (elab_expr_struct _ _ _ _ _ Hb1 H2) as [E2 B2].
+    pose proof (ext_length _ _ E2) as L2.
+    assert (B1' : na < length G2) by lia.
+    rewrite (elab_dyn_read_sem _ _ _ _ _ _ B1' B2 H).
+    rewrite (V_ext G1 G2 na E2 B1). rewrite (IHe1 _ _ _ Hb HR H1). rewrite (IHe2 _ _ _ Hb1 (rel_ext _ _ _ _ E1 Hb HR) H2). reflexivity.
+  - destruct (elab_expr S e1 G) as [na G1] eqn:H1. destruct (elab_expr S e2 G1) as [nb G2] eqn:H2.
+    pose proof (elab_expr_struct _ _ _ _ _ Hb H1) as [E1 B1].
+    assert (Hb1 : sigs_bounded (length G1) S) by (eapply sigs_bounded_mono; [apply ext_length; exact E1|exact Hb]).
+    pose proof (elab_expr_struct _ _ _ _ _ Hb1 H2) as [E2 B2].
+    pose proof (ext_length _ _ E2) as L2.
+    assert (B1' : na < length G2) by lia.
+    rewrite (elab_dyn_read_sem _ _ _ _ _ _ B1' B2 H).
+    rewrite (V_ext G1 G2 na E2 B1). rewrite (IHe1 _ _ _ Hb HR H1). rewrite (IHe2 _ _ _ Hb1 (rel_ext _ _ _ _ E1 Hb HR) H2). reflexivity.
 Qed.
 
 End Graph.
